@@ -33,7 +33,7 @@ def dims(d, with_stride):
             "bias": ["auto", "mean", "scalar", True, False],
             "flags": [[True, True], [False, False], [True, False], [False, True]],
             "pad": [None, "SAME", "VALID", [[1, 1], [2, 2]], [[1, 1], [1, 1]]],
-            "rhs": [1, 2, [1, 2]],
+            "rhs": [1, 2, [1, 2], 3],
             "lhs": [None, [2, 2]],
             "ext": [[4, 4], [3, 5]],
         }
@@ -44,7 +44,7 @@ def dims(d, with_stride):
             "bias": ["auto", "mean", "scalar", True, False],
             "flags": [[True, True, True], [False, False, False], [True, False, False]],
             "pad": [None, "SAME", "VALID", [[1, 1], [1, 1], [1, 1]]],
-            "rhs": [1, 2],
+            "rhs": [1, 2, 3],
             "lhs": [None, [2, 2, 2]],
             "ext": [[3, 3, 3], [2, 3, 4]],
         }
